@@ -725,6 +725,10 @@ func bitwiseRightShift(n, s Number) (Number, error) {
 	case Integer:
 		switch s := s.(type) {
 		case Integer:
+			if s < 0 {
+				// A negative shift count is undefined (and a run-time panic in Go).
+				return nil, exceptionalValueUndefined
+			}
 			return Integer(n >> s), nil
 		default:
 			return nil, typeError(validTypeInteger, s, nil)
@@ -740,6 +744,10 @@ func bitwiseLeftShift(n, s Number) (Number, error) {
 	case Integer:
 		switch s := s.(type) {
 		case Integer:
+			if s < 0 {
+				// A negative shift count is undefined (and a run-time panic in Go).
+				return nil, exceptionalValueUndefined
+			}
 			return Integer(n << s), nil
 		default:
 			return nil, typeError(validTypeInteger, s, nil)
